@@ -110,7 +110,7 @@ _PT = dict(extra=["-Z", "stubbing", "-Z", "unstable-options", "--cbmc-args", "--
 
 def PT(prop, own, **kw):
     d = K(own, **_PT)
-    d["filters_quick"] = ["pt_", own + "_"]
+    d["filters_quick"] = ["pt_", own + "_"] + (["c10_range_p1_unaligned_window"] if prop == "C01" else [])
     d["filters_thorough"] = ["pt_", "ptt_", own + "_", own + "t_"]
     d.update(kw)
     return d
@@ -118,6 +118,9 @@ def PT(prop, own, **kw):
 PROPS = {
     "C01": PT("C01", "c01", bounds="one mapper call from every pre-state of 80 (quick) / 400 (thorough) concrete-skeleton instances x all symbolic contents; pool of 8 table frames; histories by induction on WF over the instance family, not for all addresses"),
     "C02": PT("C02", "c02", bounds="as C01; every allocator failure position (0..3) is its own instance"),
+    "C10": dict(K("c10", **_PT), own_labels_only=True, jobs=6, mem_gb=None, harness_timeout=2400, harness_timeout_thorough=5400, total_timeout=5000,
+                bounds="MappedPageTable only; 11 (quick) / 16 (thorough) concrete skeleton x range instances (<= 2 populated entries per table, <= 7 tables), symbolic leaf contents decide which tables are empty; loops fully unrolled (unwind 514)",
+                assumptions=["regime R2- as C01 (concrete skeleton, symbolic level-1 leaves)", "RecursivePageTable::clean_up is not driven (recursive slot exclusion undecided)"]),
     "C09": PT("C09", "c09", bounds="as C01; frame rule on 24 witness slots per instance (every written slot, neighbours, slots 0/511 of free frames)"),
     "C04": K("c04", bounds="no loop; all canonical addresses, all index tuples in 0..512^4, all u16"),
     "C05": K("c05", bounds="no loop; all canonical addresses/pages, all usize counts"),
